@@ -250,6 +250,62 @@ func c13CLI(c *Ctx, r *Report) {
 			targets[lastField(dst)] = src
 		}
 	}
+	// the same through a helper newer than the rules: field = helper(flag) where the
+	// helper parses its argument with SourceList.FromString into a local list,
+	// checks the error, and returns that list
+	allInstrs(fn, func(in ssa.Instruction) {
+		st, ok := in.(*ssa.Store)
+		if !ok {
+			return
+		}
+		fa, ok := st.Addr.(*ssa.FieldAddr)
+		if !ok {
+			return
+		}
+		field := fieldVar(fa).Name()
+		if field != "IncludeSources" && field != "ExcludeSources" {
+			return
+		}
+		call, ok := st.Val.(*ssa.Call)
+		if !ok {
+			return
+		}
+		h := call.Call.StaticCallee()
+		if h == nil || !isNewFunc(h) {
+			return
+		}
+		for _, inner := range callsTo(h, "(*lint.SourceList).FromString") {
+			cv, _ := inner.(*ssa.Call)
+			if cv == nil {
+				continue
+			}
+			recv, isLocal := cv.Call.Args[0].(*ssa.Alloc)
+			if !isLocal {
+				continue
+			}
+			checked := false
+			for _, ref := range *cv.Referrers() {
+				if bo, isB := ref.(*ssa.BinOp); isB && (isNilConst(bo.X) || isNilConst(bo.Y)) {
+					checked = true
+				}
+			}
+			// every return of the helper hands out the parsed local
+			returnsIt := true
+			for _, ret := range realReturns(h) {
+				for _, rv := range retVals(ret) {
+					if ld, ok := rv.(*ssa.UnOp); !ok || ld.X != ssa.Value(recv) {
+						returnsIt = false
+					}
+				}
+			}
+			// which argument of the helper is parsed
+			for i, p := range h.Params {
+				if cv.Call.Args[1] == ssa.Value(p) && i < len(call.Call.Args) && checked && returnsIt {
+					targets[field] = apath(call.Call.Args[i])
+				}
+			}
+		}
+	})
 	for _, f := range []struct{ field, flag string }{{"IncludeSources", "includeSources"}, {"ExcludeSources", "excludeSources"}} {
 		src, ok := targets[f.field]
 		r.Check(ok && strings.HasSuffix(src, "."+f.flag), "cli-sources", f.flag, fn.Pos(), src+" → "+f.field,
